@@ -92,6 +92,11 @@ func c05Run(c *core.Ctx) {
 			}
 		}
 	}
+	for _, cs := range deepCases(c) {
+		if c.Next() {
+			c05One(c, cs)
+		}
+	}
 	for _, src := range corpus.Specials() {
 		for _, v := range []*version.Version{drive.V74, drive.V56} {
 			if !c.Next() {
